@@ -119,4 +119,31 @@ theorem phase_spec (A : Arith κ ℂ) (arange : Nat → List κ) {d r : Data κ 
     rw [List.getD_eq_getElem?_getD, List.getElem?_zipWith, htr, List.getElem?_range hk]
     simp
 
+/-- autophase REPLAYS: with the factor table of the angles it records, its output has exactly the values, dimensions and
+    coordinates that `phase` gives for those angles — only the history entry differs -/
+theorem autophase_replays (A : Arith κ ℂ) (arange : Nat → List κ) (d : Data κ ℂ) (dim : String) (tbl : Nat → Nat → ℂ) :
+    (d.autophase A arange dim tbl).map (fun r => (r.values, r.dims, r.coords)) =
+    (d.phase A arange dim tbl).map (fun r => (r.values, r.dims, r.coords)) := by
+  unfold Data.autophase Data.phase
+  simp only [bind, Except.bind]
+  split <;> rfl
+
+/-- hence every element of the autophased object is the input element times a unit-modulus factor -/
+theorem autophase_spec (A : Arith κ ℂ) (arange : Nat → List κ) {d r : Data κ ℂ} {dim : String} (tbl : Nat → Nat → ℂ)
+    (hd : d.Consistent) (hf : d.unf = none) (hdim : dim ∈ d.dims) (hfi : "fold_index" ∉ d.dims)
+    (hr : d.autophase A arange dim tbl = .ok r) (ℓ : String → Nat) (hℓ : ∀ nm ∈ d.dims, ℓ nm < d.ext nm) :
+    r.getN ℓ = A.mul (d.getN ℓ)
+      (tbl (ravel ((d.dims.filter (· != dim)).map ℓ) ((d.dims.filter (· != dim)).map d.ext)) (ℓ dim)) := by
+  have h := autophase_replays A arange d dim tbl
+  rw [hr] at h
+  cases hp : d.phase A arange dim tbl with
+  | error e => rw [hp] at h; cases h
+  | ok q =>
+    rw [hp] at h
+    simp only [Except.map, Except.ok.injEq, Prod.mk.injEq] at h
+    have hq := phase_spec A arange tbl hd hf hdim hfi hp ℓ hℓ
+    unfold getN at hq ⊢
+    rw [h.1, h.2.1]
+    exact hq
+
 end Dnp.C13
